@@ -13,16 +13,24 @@
 
   FULL STATEMENT (engine_protocol): `∀ o orc f t n, height ≤ n → Protocol (mkOps q n) ghost` for the machine
   `mkEdit o orc [] [] f t` with NO hypothesis.  PROVED here:
-    * `engine_protocol_partial`: for every machine built from const / kvp / str / fixed / coll nodes (`coll` =
-      EditCollection = FixedKeyDictNodeEdit) over arbitrary atoms (`ed` = EditDistance, `ms` = MultiSetEdit +
-      matcher), PROVIDED the atoms obey the protocol whenever their children do (`AtomHyp`).  Missing conjuncts:
-      `editDistance_protocol`, `matcher_protocol` / `multiset_protocol` (= `AtomHyp` for the two atom classes).
-    * `engine_protocol_structural`: unconditional for machines without atoms: fixed-key dictionaries (dict strategy
-      `none`), key/value pairs, positional list edits, leaves — everything except list alignment / string edits and
-      multiset matching.
+    * `engine_protocol` (+ `mkEdit_invariant`, `mkEdit_initial_bounds`): the FULL statement for `from.edits(to)`
+      without MultiSetEdit — `f.noDict`, distinct keys, `t.fkOK` (the domain on which FixedKeyDictNodeEdit's static
+      upper bound `from.total_size + to.total_size + 1` holds; outside it the statement is FALSE: finding D24).
+    * `engine_protocol_no_multiset`: UNCONDITIONAL for every machine without MultiSetEdit: leaves, key/value pairs,
+      string edits, positional list edits, fixed-key dictionaries (EditCollection, dict strategy `none`) AND
+      EditDistance (list alignment, string edit distance) at any nesting — `Protocol (mkOps q F n) (G noAtoms F n)`
+      where the invariant `(G noAtoms F n).I` = `invG` is the structural one (per EditDistance: `EdInv`, per
+      EditCollection: `CollInv`, nesting height ≤ n, loop bound μ < F).
+    * `engine_protocol_partial`: the same over arbitrary atoms (`ms` = MultiSetEdit + matcher), PROVIDED the atoms
+      obey the protocol whenever their children do (`AtomHyp`).  Missing conjunct: `matcher_protocol` /
+      `multiset_protocol` (= `AtomHyp` for `ms`).
     * per class: `const`/`kvp`/`str` (inside `engine_step`), `fixedLen_protocol`, `repeat_until_tightened_terminates`,
       `editCollection_protocol` (bounds never invalid and never an ill-formed Range, the `while True` loop of
-      `tighten_bounds` terminates, True ⇒ strictly inside the starting bounds, False ⇒ single value).
+      `tighten_bounds` terminates, True ⇒ strictly inside the starting bounds, False ⇒ single value),
+      `editDistance_protocol` (generic in the cells' ghost: `bounds()` / `tighten_bounds()` / `edits()` succeed, never
+      read the freed matrix, never index outside it, keep the invariant `EdInv`, the interval contains the greedy
+      final value of L2's `EditMatrix.solve` on the cells' final costs, only shrinks, the measure decreases on True,
+      False ⇒ single value and matrix complete, True after an observation ⇒ interval changed).
     * corollaries for any `Protocol`: `observed_step` (what an external caller sees around one refinement step),
       `bounds_sound`, `converges`.
   One gap named by the statement itself: "a step that reports progress has strictly shrunk the interval" is only
@@ -32,6 +40,7 @@
 -/
 import GtModel.Proofs.LazyRun
 import GtModel.Proofs.LazyEdStatic
+import GtModel.Proofs.LazyMkC
 
 namespace GtModel.C04
 open GtModel.Lazy
@@ -70,14 +79,14 @@ theorem repeat_until_tightened_terminates {rec : Ops} {g : Ghost} (h : Protocol 
         = .ok (.fixed l ms' tail, true) ∧ FixedOut g ms ms' true :=
   fixedLoop_ok h l tail 0 ms hI hnd
 
-/-- every machine over protocol-abiding atoms obeys the protocol (`engine_protocol` with the atom classes as
-    hypothesis) -/
+/-- every machine over protocol-abiding atoms (MultiSetEdit) obeys the protocol (`engine_protocol` with the atom
+    class as hypothesis) -/
 theorem engine_protocol_partial (q : Bool) (F : Nat) (hF : 0 < F) (a : Ghost) (hA : AtomHyp q F a) (n : Nat) :
     Protocol (mkOps q F n) (G a F n) :=
   engine_protocol_of_atoms q F hF a hA n
 
-/-- unconditional: machines without atoms (const, kvp, fixed, coll) -/
-theorem engine_protocol_structural (q : Bool) (F : Nat) (hF : 0 < F) (n : Nat) :
+/-- unconditional: every machine without MultiSetEdit (const, kvp, str, fixed, coll, ed) -/
+theorem engine_protocol_no_multiset (q : Bool) (F : Nat) (hF : 0 < F) (n : Nat) :
     Protocol (mkOps q F n) (G noAtoms F n) :=
   engine_protocol_of_atoms q F hF noAtoms (noAtoms_hyp q F) n
 
@@ -98,6 +107,71 @@ theorem editCollection_protocol {rec : Ops} {g : Ghost} (h : Protocol rec g) (l 
       (r = false → (collView g s' q').lo = (collView g s' q').hi)) := by
   obtain ⟨s', q', e, ck, hv, _⟩ := collBounds_keeps h l s p q inv
   exact ⟨⟨s', q', e, ck, hv⟩, collView_wf h inv, collTighten_ok h l n s p q inv hn⟩
+
+/-- per class: EditDistance, generic in the cells' ghost `g` and ops `rec`.  Under the invariant `EdInv` (matrix
+    entries of processed diagonals = L2's greedy `EditMatrix.spec` over the cells' final costs; cells compared so far
+    are definitive; `freed ↔ script cached`; the cached path is the back-trace; static facts `EdStat`) and a loop
+    bound `F` above the measure:
+    * the interval `edViewOf` contains the final value `edFinOf` (= greedy matrix value + penalty);
+    * `bounds()` succeeds, returns `edViewOf`, keeps the invariant and the interval, and finalises a complete matrix;
+    * `tighten_bounds()` succeeds, keeps the invariant (`EdKeeps`: interval only shrinks, cells only refine), the
+      measure strictly decreases on True, False ⇒ the interval is a single value and the matrix is complete, and for
+      an observer that has read `bounds()` True ⇒ the interval changed;
+    * `edits()` (force to completion + back-trace) succeeds and leaves the script cached. -/
+theorem editDistance_protocol {rec : Ops} {g : Ghost} (h : Protocol rec g) (q : Bool) (F : Nat) (s : EdSt)
+    (cells : List (List M)) (inv : EdInv g s cells) (hmu : edMu0 s + muLLg g cells < F) :
+    ((edViewOf s (finM g cells)).lo ≤ edFinOf s (finM g cells) ∧
+      edFinOf s (finM g cells) ≤ (edViewOf s (finM g cells)).hi) ∧
+    (∃ s' cells', edBounds rec F s cells = .ok (s', cells', edViewOf s (finM g cells)) ∧ EdKeeps g s cells s' cells' ∧
+      edViewOf s' (finM g cells) = edViewOf s (finM g cells) ∧
+      (edComplete s' = true → s'.cache.isSome = true)) ∧
+    (∃ s' cells' r, edTighten rec q F s cells = .ok (s', cells', r) ∧ EdKeeps g s cells s' cells' ∧
+      (r = true → edMu0 s' + muLLg g cells' < edMu0 s + muLLg g cells) ∧
+      (r = false → (edViewOf s' (finM g cells)).lo = (edViewOf s' (finM g cells)).hi ∧ edComplete s' = true) ∧
+      ((edComplete s = true → s.cache.isSome = true) → r = true →
+        edViewOf s' (finM g cells) ≠ edViewOf s (finM g cells))) ∧
+    (∃ s' cells', edEnsure rec q F s cells = .ok (s', cells') ∧ EdKeeps g s cells s' cells' ∧
+      s'.cache.isSome = true) := by
+  obtain ⟨s1, c1, e1, k1, hv1, _, hq1, _, _⟩ := edBounds_keeps h F inv (by omega)
+  obtain ⟨s2, c2, r, e2, k2, hd, hs, hst, hc⟩ := edTighten_ok h q F inv hmu
+  exact ⟨edView_wf inv, ⟨s1, c1, e1, k1, hv1, hq1⟩, ⟨s2, c2, r, e2, k2, hd, fun hr => ⟨hs hr, hc hr⟩, hst⟩,
+    edEnsure_ok h q F inv hmu⟩
+
+/-- the final value of an EditDistance is L2's greedy matrix value on the cells' final costs -/
+theorem editDistance_final_is_greedy (s : EdSt) (fm : List (List Nat)) :
+    edFinOf s fm = (EditMatrix.solve s.rem s.ins fm).1 :=
+  edFin_eq_solve s fm
+
+/-! ### the fresh machine of `from.edits(to)` -/
+
+/-- `mkEdit o orc [] [] f t` SATISFIES the structural invariant, on the fragment without MultiSetEdit:
+    `f.noDict` (no `DictNode` on the from-side, i.e. dict strategy `none` / lists / scalars), distinct keys in every
+    mapping, and the to-side in the domain `fkOK` on which FixedKeyDictNodeEdit's static upper bound
+    `from.total_size + to.total_size + 1` really bounds its sub-edits (every value `v` under key `k` of a fixed-key
+    dictionary of `t` has `3 * nw v ≤ 2 * len k + 5`, `nw` = number of `null` leaves reachable through lists only).
+    Outside `fkOK` the invariant is FALSE and so is the property: see NOTES_C04 (finding D24). -/
+theorem mkEdit_invariant (o : Opts) (orc : Orc) (f t : Tree) (hf : f.noDict = true) (hkf : f.KeysDistinct)
+    (hkt : t.KeysDistinct) (ht : t.fkOK = true) (F n : Nat) (hF : muG noAtoms (mkEdit o orc [] [] f t) < F)
+    (hn : height (mkEdit o orc [] [] f t) ≤ n) : (G noAtoms F n).I (mkEdit o orc [] [] f t) :=
+  ⟨(mkEdit_fresh noAtoms o orc f hf hkf t hkt ht [] []).1.inv F hF, hn⟩
+
+/-- a fresh machine exposes its initial bounds, and the initial upper bound is at most
+    `size f + size t + 1 + 3 * nw t` (the `3 * nw t` is needed: `LeafNode("").edits(NullNode)` costs
+    `lev("", "None") = 4` while both sizes are 0) -/
+theorem mkEdit_initial_bounds (o : Opts) (orc : Orc) (f t : Tree) (hf : f.noDict = true) (hkf : f.KeysDistinct)
+    (hkt : t.KeysDistinct) (ht : t.fkOK = true) :
+    viewG noAtoms (mkEdit o orc [] [] f t) = initIv (mkEdit o orc [] [] f t) ∧
+      (initIv (mkEdit o orc [] [] f t)).hi ≤ f.size + t.size + 1 + 3 * t.nw :=
+  ⟨(mkEdit_fresh noAtoms o orc f hf hkf t hkt ht [] []).1.view, (mkEdit_fresh noAtoms o orc f hf hkf t hkt ht [] []).2⟩
+
+/-- FULL STATEMENT for the fragment: the machine of `from.edits(to)` obeys the protocol, with NO hypothesis on the
+    machine (loop bound `F` = its measure + 1, nesting depth `n` = its height) -/
+theorem engine_protocol (q : Bool) (o : Opts) (orc : Orc) (f t : Tree) (hf : f.noDict = true) (hkf : f.KeysDistinct)
+    (hkt : t.KeysDistinct) (ht : t.fkOK = true) :
+    ∃ F n, Protocol (mkOps q F n) (G noAtoms F n) ∧ (G noAtoms F n).I (mkEdit o orc [] [] f t) :=
+  ⟨muG noAtoms (mkEdit o orc [] [] f t) + 1, height (mkEdit o orc [] [] f t),
+    engine_protocol_no_multiset q _ (Nat.succ_pos _) _,
+    mkEdit_invariant o orc f t hf hkf hkt ht _ _ (Nat.lt_succ_self _) (Nat.le_refl _)⟩
 
 section Observed
 variable {ops : Ops} {g : Ghost}
@@ -172,7 +246,7 @@ example : (G noAtoms 9 3).I exampleMachine := by
 
 example : ∃ m', full (mkOps true 9 3) ((G noAtoms 9 3).μ exampleMachine + 1) exampleMachine = .ok m' ∧
     (G noAtoms 9 3).view m' = Iv.point 4 := by
-  obtain ⟨m', e, _, hv⟩ := converges (engine_protocol_structural true 9 (by omega) 3) exampleMachine
+  obtain ⟨m', e, _, hv⟩ := converges (engine_protocol_no_multiset true 9 (by omega) 3) exampleMachine
     (by simp [exampleMachine, G, invG, invL, height, heightL])
   exact ⟨m', e, by rw [hv]; simp [exampleMachine, G, finG, finL, tailCost, GtModel.mkInsert, Script.cost]⟩
 
